@@ -13,7 +13,10 @@ def _neighbours(v):
     if isinstance(v, (bool, np.bool_)):
         return [not v]
     if isinstance(v, (int, np.integer)):
-        return [int(v) - 1, int(v) + 1]
+        out = [int(v) - 1, int(v) + 1]
+        if abs(int(v)) < 2 ** 51:
+            out += [int(v) + 0.5, int(v) - 0.5]       # a non-integral constant next to an integer bound
+        return out
     if isinstance(v, (float, np.floating)):
         f = float(v)
         if math.isinf(f) or math.isnan(f):
